@@ -5,6 +5,7 @@ import ScnrVerif.Model.Equiv
 import ScnrVerif.Model.SpecPat
 import ScnrVerif.Model.Class
 import ScnrVerif.Model.World
+import ScnrVerif.Model.Build
 import Std.Data.HashMap
 /-!
 # Line-protocol driver for the executable model (`lake exe scnr_model < case.in`)
@@ -49,6 +50,8 @@ structure DState where
   comps : Array (Array ModeDfa × Array ModeCfg × Array (List (Nat × Nat))) := #[]
   compileTbl : Array (Option Nat) := #[]
   world : World := World.empty
+  /-- C15: the configuration being classified (modes in reverse, patterns in reverse) -/
+  bmodes : List (List BPat) := []
   /-- C08: tables of the named primitives, the class expression, the real table -/
   etables : Array (List (Nat × Nat)) := #[]
   cls : Option (Bool × CSet) := none
@@ -143,6 +146,13 @@ def specVerdict (st : DState) (real : List String) : Array SpecIt × Option Stri
   | _, ["findpanic"] => (sp, some "S FAIL the real crate panicked in find_from")
   | _, ["buildpanic"] => (sp, some "S FAIL the real crate panicked while building the scanner")
   | _, ["runaway"] => (sp, some "S FAIL the real iterator yields more tokens than the input has characters")
+  | ["bbuild"], ["build", r] =>
+    let modes := (st.bmodes.map List.reverse).reverse
+    let sup := allSupported modes
+    (sp, some (if sup && r == "ok" then "S ok"
+               else if !sup && (r == "syntax" || r == "unsupported") then "S ok"
+               else if sup then s!"S FAIL a configuration made only of supported constructs was rejected ({r})"
+               else "S FAIL a configuration with an unsupported construct or a syntax error was built without error"))
   | ["findall", m], "findall" :: items =>
     (sp, match m.toNat? with
     | none => none
@@ -324,6 +334,36 @@ partial def parseSet : List String → Option (CSet × List String)
     op.bind fun op => (parseSet r).bind fun (l, r1) => (parseSet r1).map fun (rr, r2) => (.binop op l rr, r2)
   | _ => none
 end
+
+/-- Parser of `FAst`: `E F L D S | K sup | R greedy x | G flagged x | A n .. | C n ..`
+    (n-ary nodes are nested to the right; an empty alternation/concatenation is `E`). -/
+partial def parseFAst : List String → Option (FAst × List String)
+  | "E" :: r => some (.empty, r)
+  | "F" :: r => some (.flags, r)
+  | "L" :: r => some (.literal, r)
+  | "D" :: r => some (.dot, r)
+  | "S" :: r => some (.assertion, r)
+  | "K" :: s :: r => s.toNat?.map fun s => (.cls (s != 0), r)
+  | "R" :: g :: r => g.toNat?.bind fun g => (parseFAst r).map fun (x, r') => (.rep (g != 0) x, r')
+  | "G" :: f :: r => f.toNat?.bind fun f => (parseFAst r).map fun (x, r') => (.group (f != 0) x, r')
+  | "A" :: n :: r => n.toNat?.bind fun n => (many n r).map fun (xs, r') => (nest FAst.alt xs, r')
+  | "C" :: n :: r => n.toNat?.bind fun n => (many n r).map fun (xs, r') => (nest FAst.concat xs, r')
+  | _ => none
+where
+  many : Nat → List String → Option (List FAst × List String)
+    | 0, r => some ([], r)
+    | n + 1, r => (parseFAst r).bind fun (x, r') => (many n r').map fun (xs, r'') => (x :: xs, r'')
+  nest (f : FAst → FAst → FAst) : List FAst → FAst
+    | [] => .empty
+    | [x] => x
+    | x :: xs => f x (nest f xs)
+
+def parsePat (ws : List String) : Option (Option FAst) :=
+  match ws with
+  | ["!"] => some none
+  | _ => match parseFAst ws with
+    | some (a, []) => some (some a)
+    | _ => none
 
 def showWord (w : List Nat) : String := " ".intercalate (w.map toString)
 
@@ -625,6 +665,23 @@ def step (st : DState) (line : String) : DState × Option String :=
     | none => (st, some "bad-op")
   | "oracle" :: "ok" :: _ => (st, some "oracle\nS ok")
   | "oracle" :: "FAIL" :: r => (st, some ("oracle\nS FAIL " ++ " ".intercalate r))
+  | ["bnew"] => ({ st with bmodes := [] }, none)
+  | ["bmode"] => ({ st with bmodes := [] :: st.bmodes }, none)
+  | "bpat" :: r =>
+    match parsePat r, st.bmodes with
+    | some a, m :: ms => ({ st with bmodes := (⟨a, none⟩ :: m) :: ms }, none)
+    | _, _ => (st, some "bad-op")
+  | "bla" :: r =>
+    match parsePat r, st.bmodes with
+    | some a, (p :: ps) :: ms => ({ st with bmodes := ({ p with lookahead := some a } :: ps) :: ms }, none)
+    | _, _ => (st, some "bad-op")
+  | ["bbuild"] =>
+    let modes := (st.bmodes.map List.reverse).reverse
+    let res := match build modes with
+      | .ok => "build ok"
+      | .syntaxError => "build syntax"
+      | .unsupported => "build unsupported"
+    (st, some res)
   | "input" :: r => ({ st with input := nats r, iters := #[], specs := #[], table := #[] }, none)
   | ["finder", "model"] => ({ st with useTable := false }, none)
   | ["finder", "table"] => ({ st with useTable := true }, none)
